@@ -3,7 +3,8 @@
 
    Observation layout:
      VL [ VL [files under threshold n | n <- thresholds];      file run (Metrics.trace(r, t))
-          VL [files; consumed]                                 run with file + consumable traces
+          VL [files; consumed; files'; consumed']              run with file + consumable traces, and
+                                                               the same with a failed first endCollect
           z after the run ]                                    (VL [] when no tensor is populated)
    files / consumed = one entry per key of the case, each the list of rows of that trace
    (header first, encoded as in C16Metrics; an unstarted trace is the empty list). *)
@@ -60,7 +61,9 @@ Definition c16_model (c : c16_case) : V :=
   let st2 := exec n0 (init_state (k_keys c) true true) (fst ev) in
   VL [ Vl (fun n => files_of c (exec n (init_state (k_keys c) true false) (fst ev)))
           (k_thresholds c);
-       VL [files_of c st2; mems_of c st2];
+       (* the same run, and the run in which the first endCollect() raises (rows not consumed),
+          the caller consumes them and calls endCollect() again *)
+       VL [files_of c st2; mems_of c st2; files_of c (end_attempt st2); mems_of c (end_attempt st2)];
        match snd ev with Some t => V_tree t | None => VL [] end ].
 
 (* ===================================================================== the property oracle
@@ -345,14 +348,15 @@ Definition files_wf (f : V) : bool := V_eqb (V_files (parse_files f)) f.
 Definition c16_holds (c : c16_case) (o : V) : bool :=
   c16_wf c &&
   match o with
-  | VL [VL runs; VL [f2; m2]; z] =>
-    forallb files_wf runs && files_wf f2 && files_wf m2
+  | VL [VL runs; VL [f2; m2; f3; m3]; z] =>
+    forallb files_wf runs && files_wf f2 && files_wf m2 && files_wf f3 && files_wf m3
     && Nat.eqb (length runs) (length (k_thresholds c))
     && match runs with
        | base :: others =>
          all_ok (trace_ok c (tree_of_V z)) (k_keys c) (V_list base)  (* every trace, by the text *)
          && forallb (V_eqb base) others                              (* flush independence *)
          && V_eqb base f2 && V_eqb base m2                           (* consumable: same rows *)
+         && V_eqb base f3 && V_eqb base m3                           (* also after a retried endCollect *)
        | [] => false
        end
   | _ => false
